@@ -55,7 +55,7 @@ def run(ck, P):
           "%d feasible path(s) deliver a direct tell that carries a topic (the poison pill)" % reach if reach else
           "with key == NULL (direct tell) and a topic set, no feasible path of tell_if reaches the pipe write: m_mod_ps_poisonpill() is accepted but the pill "
           "is never delivered, the recipient never stops")
-    calls = [e for e in ts.calls("tell_if")]
+    calls = [e for e in ts.calls("tell_if") if strip(e.args[1])["k"] != "null"]     # (the direct tell of tell_pubsub_msg passes no key)
     okt = bool(calls)
     for e in calls:
         fc = X.facts(ts, e)
@@ -106,10 +106,30 @@ def run(ck, P):
     ck.rule("C02.3-COPY", "dataflow: alloc_ps_msg copies the whole template (memcpy of sizeof(ps_priv_t)) and takes a reference on the sender; "
             "the template's sender/topic/data are send_msg's parameters in that order (system = false)", floor=2)
     mc = [e for e in ap.calls("memcpy")]
-    okc = len(mc) == 1 and S(mc[0].args[1]) == ap.params[0]["name"] and strip(mc[0].args[2])["k"] == "sizeof" and "ps_priv_t" in strip(mc[0].args[2]).get("of", "")
+    folded_ap = "alloc_ps_msg" in P.folded        # alloc_ps_msg written out inside tell_if: template and subscription are its locals
+    tmpl_name = ap.params[0]["name"] if not folded_ap else (S(mc[0].args[1]) if mc else "?")
+    sub_name = ap.params[1]["name"] if not folded_ap else "sub"
+    okc = len(mc) == 1 and S(mc[0].args[1]) == tmpl_name and strip(mc[0].args[1])["k"] == "var" and strip(mc[0].args[2])["k"] == "sizeof" \
+        and "ps_priv_t" in strip(mc[0].args[2]).get("of", "")
     refs = [e for e in ap.events() if e.kind == "assign" and S(e.lhs).endswith("->msg.sender") and strip(e.rhs).get("callee") == "m_mem_ref"]
     ck.ob("C02.3-COPY", ap.site("whole template + sender ref"), okc and bool(refs), "memcpy of the template: %s; sender referenced: %s" % (okc, bool(refs)),
           witness=[("del_event", ap.unit, ap.name, e.block.id, e.idx) for e in refs])
+    # the copy is faithful: after the memcpy the only stores into it wrap a copied pointer (or the subscription parameter) in m_mem_ref
+    if mc:
+        dst = S(mc[0].args[0])
+        exa = rules.Expander(ap, stable=False)
+        badst = []
+        for e in ap.events():
+            if e.kind in ("assign", "incdec") and e.lhs is not None and S(e.lhs).startswith(dst + "->"):
+                lv = S(e.lhs)
+                rv = S(e.rhs) if e.kind == "assign" and e.e["op"] == "=" else None
+                okw = rv is not None and (rv == "m_mem_ref(%s)" % lv or (lv == dst + "->sub" and rv == "m_mem_ref(%s)" % sub_name))
+                if not okw:
+                    badst.append((lv, rv, e.line))
+        ck.ob("C02.3-COPY", ap.site("copy is faithful"), not badst,
+              "no field of the per-recipient copy is rewritten (only its counted pointers are re-referenced)" if not badst else
+              "the per-recipient copy is altered after the memcpy: '%s = %s' at line %d — the recipient no longer sees the sender/topic/data/flags that were "
+              "sent (e.g. a regex subscriber gets the pattern instead of the published topic)" % badst[0])
     d = [e for e in sm.events() if e.kind == "decl" and e.e.get("t", "").startswith("ps_priv_t") and e.rhs is not None and strip(e.rhs)["k"] == "init"]
     oks = bool(d)
     if oks:
@@ -121,7 +141,9 @@ def run(ck, P):
     # ------------------------------------------------------------------ 4. pipe failure path releases the copy
     ck.rule("C02.4-PIPE-FULL", "R-UNREF-PROV/R-OWN: the per-recipient copy made in tell_if is, on every path, written to the recipient's pipe or "
             "released; nothing but that copy is released there (the template the caller passed in lives on the caller's stack)", floor=2)
-    al = [e for e in ti.events() if e.kind in ("decl", "assign") and e.rhs is not None and strip(e.rhs).get("callee") == "alloc_ps_msg"]
+    al = [e for e in ti.events() if e.kind in ("decl", "assign") and e.rhs is not None and
+          (strip(e.rhs).get("callee") == "alloc_ps_msg" or
+           (strip(e.rhs).get("callee") == "m_mem_new" and len(strip(e.rhs)["args"]) > 1 and S(strip(e.rhs)["args"][1]) == "ps_msg_dtor"))]
     ck.need(len(al) == 1, "allocation of the per-recipient copy in tell_if changed shape")
     cv = S(al[0].lhs)
     bad = None
